@@ -1,6 +1,7 @@
 """Property -> units / harnesses / stated assumptions.  Units are /verif/units/<name>.vrs."""
 
 UNIT_NOTES = {
+    "satloc": "C09 last_sat_location_precompile on its real body: no index out of range for any call data / transaction contents; satoshi sums modelled as the wrapping additions the release profile executes (N39); deferred initialisations given an arbitrary initial value (N38)",
     "handlers": "C19/C05/C15/C16 indexer-facing handlers without await (brc20_deposit, withdraw, deploy, call, transact, finalise_block) and load_brc20_mint_tx / load_brc20_burn_tx on their real bodies; engine entry points are sites whose preconditions compare what is handed on with what was supplied",
     "rawblock": "C06 RawBlock::new: the receipts closure and the transactions closure lifted (N10-lift, lift_wrap) and proved field by field against the stored TxReceiptED / TxED; alloy consensus types as plain records with alloy's public field names",
     "txstore": "C06/C05/C08 finalise_block's closure (N10-lift): what is stored for the block and in which order; tail of add_tx_to_block's closure (N10-lift): values handed to set_tx_receipt (cumulative gas, first log index, hash, index, nonce, gas limit) and the advance of LastBlockInfo (waiting count, gas, log index); the EVM run before it is dropped (its output and trace are parameters)",
@@ -144,9 +145,9 @@ PROPS["C08"] = {
     "assumptions": ["nonces, transaction indexes and arrival blocks are < 2^63", "drain-loop termination not proved", "pool invariant assumed at entry: nothing is parked at or beyond account nonce + 10 (parking precondition + monotone account nonces)", "a parked transaction is stored under its own signer and nonce (pool lookup shim)"],
 }
 PROPS["C09"] = {
-    "units": ["payload", "precompile", "scalars", "engine", "dbfacade", "blockdb", "dbslot", "handlers"],
+    "units": ["payload", "precompile", "scalars", "engine", "dbfacade", "blockdb", "dbslot", "handlers", "satloc"],
     "kani": [],
-    "level_text": "Panic-freedom and termination, with NO precondition on request-controlled arguments, of the extracted request-facing functions: payload decoders (index, slice, arithmetic), select_bytes, build_lock_script (any pkscript / lock count), gas helpers, fork schedule, mine_blocks (count 0, loop bound), block-table loops with decreases, get_logs loops, parse_block_number (the slice `&number[2..]` is reached only behind the 0x-prefix test), the indexer-facing handlers without await; reachable panic!/expect/index are preconditions Verus must discharge; the engine's database slot: in the three closures that run the EVM (lifted, N10-lift) the database moved out with mem::take is swapped back on every exit path, including the early return when a call of an eth_callMany batch is rejected.",
+    "level_text": "Panic-freedom and termination, with NO precondition on request-controlled arguments, of the extracted request-facing functions: payload decoders (index, slice, arithmetic), select_bytes, build_lock_script (any pkscript / lock count), last_sat_location_precompile (any call data and any transaction contents, including client-supplied override transactions: every index into inputs and outputs is in range, both loops are entered and left within bounds), gas helpers, fork schedule, mine_blocks (count 0, loop bound), block-table loops with decreases, get_logs loops, parse_block_number (the slice `&number[2..]` is reached only behind the 0x-prefix test), the indexer-facing handlers without await; reachable panic!/expect/index are preconditions Verus must discharge; the engine's database slot: in the three closures that run the EVM (lifted, N10-lift) the database moved out with mem::take is swapped back on every exit path, including the early return when a call of an eth_callMany batch is rejected.",
     "level_note": COMMON_TRUST + "State-dependent ranges (heights, nonces < 2^63; from <= to in get_logs) are explicit preconditions. NOT covered: EVM execution (revm; assumed to keep owning the database it was given and not to panic), async handlers, ABI decoding (sol! macro), bitcoin / bip322 crates, decoders fed from the database.",
     "assumptions": ["heights/nonces < 2^63", "external crates (revm, alloy sol types, bitcoin, bip322) outside the kernel"],
 }
